@@ -14,6 +14,9 @@ CLAIMED = {
  "C07": ("acceptance-dominance (must-facts at the acceptance node on the CFG), data-flow rules for the accept digest / request construction, regex-AST anchoring check, interprocedural may-raise (exception-escape) analysis with taint and guard discharge",
          "Decides on all paths: every RFC 6455 section 4 obligation holds as a must-fact where the server hands the request to onConnect and where the client sets state = OPEN (17 + 10 obligations plus structural ones for token flags, duplicate detection, origin policy, extension handling), failHandshake always ends processing; the accept digest is SHA-1(key + RFC GUID) of the validated / sent key; origin patterns are anchored and matched against the whole origin; the server's answer is a subset of the offer; the client request is built from parse_url components; no exception caused by a risky library operation on peer-controlled data can leave the handshake entry points. Does not decide acceptance of exactly the HTTP grammar for arbitrary octets.",
          "3 C07"),
+ "C09": ("exhaustive product-automaton comparison of the extracted DFA (Python table under the loop's index expression, C table literal, macro-expanded C if-chain compiled to a transition relation) with a recogniser generated from the RFC 3629 ABNF; structural exit-path rules for index/state bookkeeping; who-may-be-called rule for the dispatcher",
+         "Exhaustive for the automaton: every transition of every reachable state on every byte is compared with the RFC 3629 reference for language, code-point boundary and absorbing reject, in the Python validate() and decode() index forms, the C table (must equal the Python tuple) and the C unrolled macro, in three preprocessor worlds; on every exit path the offending byte's position / chunk length and the state are stored as required, a chunk fed in REJECT stays invalid, the dispatcher reaches only checked implementations and the cffi wrapper maps the result code to the 4-tuple. Assumes the compiled extension is built from the analysed C file.",
+         "3 C09"),
  "C12": ("writer/reader table extraction and agreement over the AST (extension strings vs parse loops, 4 PMCE modules), guard facts at every stored wire value, role-mapping table check of (de)compressor set-up and factory methods, raise-site fact matching for offer/accept compatibility, constant agreement of the sync-flush tail, guard-dominance of RSV1/doNotCompress gating",
          "Decides the negotiation and gating clauses on all paths: parameter names agree between writers and readers; every parse loop rejects repeated, unknown, non-integer and out-of-range parameters (9..15 for deflate); each direction is set up from the parameter family of the sending role and negated for raw deflate; factory methods bind offer/response/accept fields to the matching family; incompatible accepts raise; the sender strips exactly the 4-octet tail the receiver re-appends; RSV1 and the compressor are used only when an extension is active and doNotCompress is off, and decompression follows the RSV1 of the first frame. Does not decide losslessness of the compression libraries or context takeover across messages (run-time library state).",
          "3 C12"),
